@@ -99,9 +99,8 @@ func c17Shard(src, dst MapSpec, shift int, tier string) mc.Shard {
 		}
 		m2 = dspec.New()
 		a1, a2 := m1.RelativeAccuracy(), m2.RelativeAccuracy()
-		g1, _ := mapParams(m1)
+		g1, o1 := mapParams(m1)
 		g2, o2 := mapParams(m2)
-		_ = g1
 		scales := []float64{1e-3, 0.1, 0.5, 1, 2, 10, 1e3}
 		// bin-aligned scales: powers of the bases actually in play
 		for k := -2; k <= 2; k++ {
@@ -191,10 +190,25 @@ func c17Shard(src, dst MapSpec, shift int, tier string) mc.Shard {
 									})
 								}
 								_ = neg
-								if math.Abs(W2-W) > 1e-12*W {
+								// "up to rounding": the computed bounds of a bin are off by eps(v) relative to
+								// the value (tolerance policy of C03), i.e. by eps(v)/ln(base) of a bin's width;
+								// a sliver of that relative size may fall outside every target bin on each side
+								wTol := 1e-12
+								for _, b := range srcBins {
+									if b.v == 0 {
+										continue
+									}
+									for _, pr := range [][3]float64{{math.Abs(b.v), g1, o1}, {math.Abs(b.v) * scale, g2, o2}} {
+										e := math.Ldexp(1, -48) + math.Ldexp(1, -49)*(math.Abs(math.Log(pr[0]))+math.Abs(pr[2])*math.Log(pr[1]))
+										if t := 4 * e / math.Log(math.Min(trueBase(m1, g1), trueBase(m2, g2))); t > wTol {
+											wTol = t
+										}
+									}
+								}
+								if math.Abs(W2-W) > wTol*W {
 									fail("C17.weight-conserved", where+"total weight %v became %v", W, W2)
 								}
-								if !exact && math.Abs(q.GetCount()-W) > 1e-12*W {
+								if !exact && math.Abs(q.GetCount()-W) > wTol*W {
 									fail("C17.weight-conserved", where+"count %v became %v", W, q.GetCount())
 								}
 								distinct[fmt.Sprintf("%v|%v|%d|%v", s.name, scale, len(outBins), sk)] = struct{}{}
@@ -351,7 +365,7 @@ func init() {
 	mc.Register(&mc.Property{
 		ID: "C17", Level: "exploration",
 		Rule:        "exhaustive enumeration of conversions: ordered pairs of mappings (3 kinds x accuracies; plus the same base with integer offset shifts -3, +1, +2, which makes bins exactly aligned) x scales {1e-3, 0.1, 1/2, 1, 2, 10, 1e3} and the bin-aligned scales gamma^k (k = -2..2) x source/target store kinds x both sketch variants x sources {a single-bin sketch for every bin of a window around 1, positive and negative; pairs of values with a zero bucket and with negatives; thirty consecutive bins; single values at 1e-100, 1e-12, 1e9, 1e100; a weight of 1e300 on a narrow bin and of 1e-300 on a wide one}. Clauses per conversion: the source is observed unchanged; the result carries the requested mapping; zero weight equal; total weight within 1e-12; NO bin of negative weight; single-bin sources send weight only to overlapping target bins; every quantile satisfies the composed bound (1-a2)/(1+a1) <= y/(scale*x) <= (1+a2)/(1-a1) for a source bin x whose cumulative interval is within one unit of weight of the rank; equal mapping and scale 1 give an exact copy; exact statistics are rescaled. evaluations = conversions performed; distinct_nontrivial = distinct (source, scale, store, result shape)",
-		Assumptions: []string{"values stay well inside both mappings' ranges after scaling (window sources in [2e-3, 5e2], far sources in [1e-100, 1e100], scales in [1e-3, 1e3])", "relative slack 1e-9 on the composed bound, 1e-12 on interval overlap and on total weight"},
+		Assumptions: []string{"values stay well inside both mappings' ranges after scaling (window sources in [2e-3, 5e2], far sources in [1e-100, 1e100], scales in [1e-3, 1e3])", "relative slack 1e-9 on the composed bound, 1e-12 on interval overlap; on total weight max(1e-12, 4 eps(v)/ln(base)) with eps(v) = 2^-48 + 2^-49 (|ln v| + |offset| ln gamma), the rounding of a bin's bounds as a fraction of its width"},
 		Shards:      c17Shards,
 		ShardBudget: budget(240*time.Second, 14*time.Minute),
 	})
